@@ -24,7 +24,7 @@ package shrinker
 //@   requires shrinkInv(shrinkst) && !muheld[base(shrinkst.mu)] && inum < 32768
 //@   requires [D4-quiet] quiet() @C06 @C03
 //@   allocates fstxn.FsTxn, alloctxn.AllocTxn, jrnl.Op, []uint64, map[uint64]*inode.Inode, cache.Cslot, inode.Inode, buf.Buf, marshal.Dec, marshal.Enc, cell:uint64, []uint8, addr.Addr
-//@   modifies held, lastst, curop, freshinum, wroteinum, cphase, abits, dirtyinum, muheld, cache.Cslot.Obj, map[uint64]*inode.Inode, inode.Inode.ShrinkSize, []uint64@inode.Inode.blks, []uint64@alloctxn.AllocTxn.freeBnums, alloctxn.AllocTxn.freeBnums, buf.Buf.dirty, []uint8@buf.Buf.Data
+//@   modifies held, lastst, curop, freshinum, wroteinum, cphase, abits, dirtyinum, muheld, cache.Cslot.Obj, map[uint64]*inode.Inode, inode.Inode.ShrinkSize, []uint64@inode.Inode.blks, []uint64@alloctxn.AllocTxn.freeBnums, alloctxn.AllocTxn.freeBnums, buf.Buf.dirty, []uint8@buf.Buf.Data, zeroed
 //@   panic_assumed "shrink"
 //@   ensures [D4-quiet] quiet() && muheld == old(muheld) @C06 @C03
 //@   loop 0 invariant shrinkInv(shrinkst) && quiet() && muheld == old(muheld)
@@ -41,5 +41,5 @@ package shrinker
 //@   requires shrinkInv(shrinkst) && !muheld[base(shrinkst.mu)] && inum < 32768 && quiet()
 //@   panic_assumed "shrink"
 //@   allocates fstxn.FsTxn, alloctxn.AllocTxn, jrnl.Op, []uint64, map[uint64]*inode.Inode, cache.Cslot, inode.Inode, buf.Buf, marshal.Dec, marshal.Enc, cell:uint64, []uint8, addr.Addr
-//@   modifies held, lastst, curop, freshinum, wroteinum, cphase, abits, dirtyinum, muheld, cache.Cslot.Obj, map[uint64]*inode.Inode, inode.Inode.ShrinkSize, []uint64@inode.Inode.blks, []uint64@alloctxn.AllocTxn.freeBnums, alloctxn.AllocTxn.freeBnums, buf.Buf.dirty, []uint8@buf.Buf.Data, shrinkst.nthread
+//@   modifies held, lastst, curop, freshinum, wroteinum, cphase, abits, dirtyinum, muheld, cache.Cslot.Obj, map[uint64]*inode.Inode, inode.Inode.ShrinkSize, []uint64@inode.Inode.blks, []uint64@alloctxn.AllocTxn.freeBnums, alloctxn.AllocTxn.freeBnums, buf.Buf.dirty, []uint8@buf.Buf.Data, shrinkst.nthread, zeroed
 //@   ensures [D5-signalled] quiet() && muheld == old(muheld) @C06
